@@ -18,11 +18,11 @@ def frame_words(case):
 
 
 def bounded_depth(case):
-    """Depth of the terminating variant of a recursion program, or None when even two frames do not fit the smallest
-    stack the program runs on (a spawned thread has 2 MB, the budget of the main thread is smaller than its 8 MB):
-    for such frames 'stack overflow' is the correct answer of the bounded program as well."""
+    """Depth of the terminating variant of a recursion program, or None when the frames of the bounded run (depth 2 =
+    three activations plus the caller) do not fit the stack budget of managed code (threads.rs STACK_SIZE, 500 KB on
+    every thread): for such frames 'stack overflow' is the correct answer of the bounded program as well."""
     words = frame_words(case)
-    if words * 8 * 3 > 1_500_000:
+    if words * 8 * 4 > 400_000:
         return None
     return 200 if words <= 64 else (5 if words <= 512 else 2)
 
